@@ -83,7 +83,7 @@ func dumpRequest(req *http.Request) []byte {
 
 	for _, k := range keys {
 		for _, v := range req.Header[k] {
-			if _, ok := requestHeadersToRedact[k]; ok {
+			if _, ok := requestHeadersToRedact[http.CanonicalHeaderKey(k)]; ok {
 				v = "<redacted>"
 			}
 			fmt.Fprintf(&b, "%s: %s\r\n", k, v)
